@@ -48,10 +48,15 @@ static Outcome run_body(const Entry& e, const Bytes& in, bool report) {
         // every layer; for very deep (but bounded) nestings the middle is sampled, because size() of each layer is
         // itself linear in the depth (the sweep, not libtins, would be quadratic)
         o.depth = sweep(p, v, &o.chain);
+        // a clone is swept too; for every other input the ORIGINAL is destroyed first, so a clone that still refers to storage of its source
+        // (a cached pointer copied member-wise) reads freed memory here
+        const bool original_first = (in.size() & 1) != 0;
         try {
-            PDU* c = p->clone(); View v2; v2.strict_exceptions = report; sweep(c, v2, nullptr);
+            PDU* c = p->clone(); if (original_first) { delete p; p = nullptr; cnt("clone_outlives_original"); }
+            View v2; v2.strict_exceptions = report; sweep(c, v2, nullptr);
             if (report && v2.hash() != v.hash()) cnt("clone_view_differs(observed, C12's business)");
-            (void)c->size(); delete c; budget_mark("clone");
+            (void)c->size(); if (original_first) { try { (void)c->serialize(); } catch (const std::exception&) {} }
+            delete c; budget_mark("clone");
         } catch (const exception_base&) { cnt("clone_threw_tins_exception"); }
           catch (...) { if (report) violation("escaped-exception/" + current_exception_type() + "/clone:" + e.name, "clone()/size() of an accepted packet threw a non-libtins exception"); }
         delete p; budget_mark("destroy");
@@ -118,8 +123,8 @@ static void bombs(Rng& r, long which) {
 // lengths around the body size, 0xff runs). Parsing accepts most of them; the accessor sweep then runs every typed
 // getter whose code matches against that body.
 static void optfuzz(long idx, Rng& r) {
-    static const char* classes[] = {"ICMPv6", "ICMPv6/NS", "DHCP", "DHCPv6", "TCP", "IP", "Dot11Beacon", "Dot11AssocRequest", "PPPoE"};
-    const u32 K = 9; u32 which = (u32)(idx % K); u32 code = (u32)((idx / K) % 256);
+    static const char* classes[] = {"ICMPv6", "ICMPv6/NS", "DHCP", "DHCPv6", "TCP", "IP", "Dot11Beacon", "Dot11AssocRequest", "PPPoE", "PPI"};
+    const u32 K = 10; u32 which = (u32)(idx % K); u32 code = (u32)((idx / K) % 256);
     auto ent = [&](const char* n) -> const Entry& { for (auto& e : entries) if (e.name == n) return e; return entries[0]; };
     for (u32 L = 0; L <= 48; ++L) for (u32 variant = 0; variant < 5; ++variant) {
         Bytes body(L);
@@ -135,7 +140,12 @@ static void optfuzz(long idx, Rng& r) {
             case 4: { if (L > 38 || code < 2) continue; u32 ol = 2 + L, pad = (4 - ol % 4) % 4; b.assign(20, 0); b[12] = (u8)(((20 + ol + pad) / 4) << 4); b.push_back((u8)code); b.push_back((u8)ol); b.insert(b.end(), body.begin(), body.end()); b.resize(b.size() + pad, 1); break; }
             case 5: { if (L > 38 || code < 2) continue; u32 ol = 2 + L, pad = (4 - ol % 4) % 4; b.assign(20, 0); b[0] = (u8)(0x40 | ((20 + ol + pad) / 4)); u32 tot = 20 + ol + pad; b[2] = (u8)(tot >> 8); b[3] = (u8)tot; b[8] = 64; b[9] = 253; b.push_back((u8)code); b.push_back((u8)ol); b.insert(b.end(), body.begin(), body.end()); b.resize(b.size() + pad, 0); break; }
             case 6: case 7: { b.assign(24, 0); b[0] = which == 6 ? 0x80 : 0x00; b.resize(24 + (which == 6 ? 12 : 4), 0); b.push_back((u8)code); b.push_back((u8)L); b.insert(b.end(), body.begin(), body.end()); break; }
-            default: { b = {0x11, 0x09, 0, 0, (u8)((4 + L) >> 8), (u8)(4 + L), (u8)(code & 0x0f ? 1 : 2), (u8)(code >> 4), (u8)(L >> 8), (u8)L}; b.insert(b.end(), body.begin(), body.end()); }
+            case 8: { b = {0x11, 0x09, 0, 0, (u8)((4 + L) >> 8), (u8)(4 + L), (u8)(code & 0x0f ? 1 : 2), (u8)(code >> 4), (u8)(L >> 8), (u8)L}; b.insert(b.end(), body.begin(), body.end()); break; }
+            default: {   // PPI: header length and per-field lengths around what is really there; data link types with their own dissection (802.11 = 105, radiotap 127, ethernet 1, raw 12/101, null 0)
+                static const u32 dl[] = {105, 105, 105, 127, 1, 12, 0, 113, 101, 0x7fffffff}; u32 dlt = dl[code % 10]; u32 ftype = (code / 10) % 6 == 0 ? 2 : (code / 10) % 6 == 1 ? 3 : r.below(8); u32 flen = (u32)std::max<long>(0, (long)L + (long)r.below(25) - 12);
+                u32 hlen; switch (variant) { case 0: hlen = 8; break; case 1: hlen = 8 + 4 + L; break; case 2: hlen = 8 + r.below(16); break; case 3: hlen = 8 + 4 + (L > 2 ? r.below(L) : 0); break; default: hlen = (u32)r.edgy(16); }
+                b = {0, (u8)r.below(2), (u8)hlen, (u8)(hlen >> 8), (u8)dlt, (u8)(dlt >> 8), (u8)(dlt >> 16), (u8)(dlt >> 24), (u8)ftype, (u8)(ftype >> 8), (u8)flen, (u8)(flen >> 8)};
+                b.insert(b.end(), body.begin(), body.end()); if (r.chance(1, 2)) { Bytes f = {0x08, 0x02, 0, 0, 1, 2, 3, 4, 5, 6, 7, 8, 9, 10, 11, 12, 13, 14, 15, 16, 17, 18, 0, 0, 0xaa, 0xaa, 3, 0, 0, 0, 8, 0}; b.insert(b.end(), f.begin(), f.end()); } }
         }
         run_input(ent(entry), b, "optfuzz");
         cnt(std::string("optfuzz:") + classes[which]);
